@@ -226,7 +226,19 @@ func (e *Engine) strLen(s *Term) *Term {
 	return App("str_len", BV(64), s)
 }
 
-func (e *Engine) noteStrFromBytes(st *State, r *Term, s *SliceV) {}
+func (e *Engine) noteStrFromBytes(st *State, r *Term, s *SliceV) {
+	rg := Subst(Rg(s.Base), st.substMap())
+	if rg.IsConst() && rg.Val.IsInt64() && isZero(Subst(s.Off, st.substMap())) {
+		if x, ok := st.textFloat[rg.Val.Int64()]; ok {
+			m := make(map[*Term]*Term, len(st.strFloat)+1)
+			for k, v := range st.strFloat {
+				m[k] = v
+			}
+			m[r] = x
+			st.strFloat = m
+		}
+	}
+}
 func (e *Engine) noteBytesFromStr(st *State, s *SliceV, t *Term) {}
 
 func (e *Engine) errTag() *Term {
